@@ -242,11 +242,11 @@ def line_search(
 
     def phi(alpha: float) -> float:
         """Return the objective function for a steplength of `alpha`"""
-        return sf.fun(x0 + alpha * d)
+        return sf.fun(np.clip(x0 + alpha * d, lb, ub))
 
     def dphi(alpha: float) -> NDArrayFloat:
         """Return the gradient of `phi` with respect to alpha."""
-        return sf.grad(x0 + alpha * d).dot(d)
+        return sf.grad(np.clip(x0 + alpha * d, lb, ub)).dot(d)
 
     task = b"START"
     f_m1 = f0
@@ -294,7 +294,7 @@ def line_search(
             stp_old: float = copy(steplength_0)
             f_m1_old: float = copy(f_m1)
             steplength_0 = steplength
-            f_m1, dphi_m1 = sf.fun_and_grad(x0 + steplength * d)
+            f_m1, dphi_m1 = sf.fun_and_grad(np.clip(x0 + steplength * d, lb, ub))
             dphi_m1 = dphi_m1.dot(d)
             best_stp = steplength if f_m1 < f_m1_old else stp_old
         else:
